@@ -93,6 +93,54 @@ func TestC13(t *testing.T) {
 	}
 }
 
+// Two jittered functions of different percentages alive at once and evaluated in turn (stages of
+// a config file, a chart next to a run): each applies its own percentage and carries its own
+// remainder. The global random source is mirrored in call order.
+func TestC13Pairs(t *testing.T) {
+	o := kit.Get()
+	defer o.Close()
+	r := kit.NewRand(kit.Seed() + 131)
+	jitters := []float64{0, 0.5, 1, 2, 20, 50, 60, 99, 33.3, 75.25}
+	for i := 0; i < kit.N(120, 1500); i++ {
+		js := [2]float64{jitters[r.Intn(len(jitters))], jitters[r.Intn(len(jitters))]}
+		if i%2 == 0 && js[0] < js[1] {
+			js[0], js[1] = js[1], js[0] // the larger percentage is created (and first evaluated) first
+		}
+		ln := int(r.Range(1, 120))
+		rates := [2][]int64{genRates(r, ln), genRates(r, ln)}
+		seed := int64(r.U64() >> 1)
+		rand.Seed(seed)
+		mirror := rand.New(rand.NewSource(seed))
+		var fns [2]api.RateFunction
+		var idx [2]int
+		for q := 0; q < 2; q++ {
+			q := q
+			fns[q] = api.WithJitter(func(time.Time) int { v := rates[q][idx[q]]; idx[q]++; return int(v) }, js[q])
+		}
+		var outs [2][]int64
+		var cosb [2][]uint64
+		now := time.Unix(1700000000, 0)
+		crashed, _ := kit.Guard(func() {
+			for k := 0; k < ln; k++ {
+				for q := 0; q < 2; q++ {
+					outs[q] = append(outs[q], int64(fns[q](now)))
+					if js[q] != 0 {
+						cosb[q] = append(cosb[q], bits(math.Cos(mirror.Float64()*2*math.Pi)))
+					}
+				}
+			}
+		})
+		for q := 0; q < 2; q++ {
+			tags := []string{"pair"}
+			if js[q] != 0 {
+				tags = append(tags, "nt")
+			}
+			o.Case("jitter", []string{kit.I(bits(js[q])), kit.Ints(rates[q]), kit.Ints(cosb[q])}, kit.Res(crashed, nil, kit.Ints(outs[q])), tags...)
+		}
+		o.Count("pair", "two percentages alive at once")
+	}
+}
+
 // The trigger as the CLI builds it: constant rate, jitter, and a distribution that spreads every
 // period's value over its 100 ms sub-ticks. Jittered and un-jittered triggers are stepped side by
 // side; at every sub-tick their running totals stay within the fixed bound of composed_bound_ok
